@@ -37,6 +37,53 @@ def flat_cloud(rv, npts, d):
     return X, "%s:rank%d-in-%d" % (kind, r, d)
 
 
+def few_points_cloud(rv):
+    """a cloud with NO MORE POINTS THAN DIMENSIONS (2 <= n <= d, d = 2..5) of affine rank r = 1..n-1 and the r-dimensional
+    volume of its hull in closed form. r = n-1: a simplex in general position (sqrt(Gram determinant)/r!). r < n-1: affinely
+    DEPENDENT points - the vertices of an r-simplex plus points of it (a repeated vertex, a point on an edge, a convex
+    combination: the hull is unchanged), or for r = 2 the corners of a convex polygon (shoelace area); so also a planar
+    quadrilateral in 4-D/5-D, collinear points in 3-5 dimensions. Embedded by an exact dyadic affine map, a Cayley rotation
+    (flat up to rounding) or into coordinate axes. Well conditioned: the smallest variance within the span is >= 1e-3 of
+    the total. Returns (X, exact volume, description)."""
+    for _ in range(40):
+        d = int(rv.choice([2, 3, 3, 3, 4, 4, 4, 5, 5, 5])); n = int(rv.integers(2, d + 1))
+        r = n - 1 if (n == 2 or rv.integers(2)) else int(rv.integers(1, n - 1))
+        m = n - (r + 1)
+        if r == 2 and m >= 1 and rv.integers(2):
+            Z = polygon(rv, n); x, y = Z[:, 0], Z[:, 1]
+            vol = 0.5 * abs(np.dot(x, np.roll(y, -1)) - np.dot(y, np.roll(x, -1))); how = "polygon"
+        else:
+            V = dyadic(rv, -3, 3, 2, size=(r + 1, r))
+            vol = abs(np.linalg.det(V[1:] - V[0])) / math.factorial(r)
+            rows = [V]; hows = []
+            for _j in range(m):
+                kind = str(rv.choice(["repeated-vertex", "edge-point", "convex-combination"]))
+                w = np.zeros(r + 1)
+                if kind == "repeated-vertex":
+                    w[int(rv.integers(r + 1))] = 1.0
+                elif kind == "edge-point":
+                    i0 = int(rv.integers(r + 1)); i1 = (i0 + 1 + int(rv.integers(r))) % (r + 1); a = float(rv.integers(1, 8)) / 8.0
+                    w[i0] = a; w[i1] = 1.0 - a
+                else:
+                    w = rv.multinomial(8, np.ones(r + 1) / (r + 1)) / 8.0
+                rows.append((w @ V)[None, :]); hows.append(kind)
+            Z = np.vstack(rows); how = "simplex" + ("+" + "+".join(sorted(set(hows))) if hows else "")
+        Z = Z[rv.permutation(len(Z))]
+        emb = str(rv.choice(["affine", "rotated", "axes"]))
+        if emb == "affine":
+            A = dyadic(rv, -2, 2, 2, size=(r, d))
+            X = Z @ A + dyadic(rv, -4, 4, 2, size=d); vol = vol * math.sqrt(max(float(np.linalg.det(A @ A.T)), 0.0))
+        elif emb == "rotated":
+            X = np.c_[Z, np.zeros((n, d - r))] @ rot_cayley(rv, d).T + dyadic(rv, -4, 4, 2, size=d)
+        else:
+            X = np.zeros((n, d)); X[:, np.sort(rv.permutation(d)[:r])] = Z; X = X + dyadic(rv, -4, 4, 2, size=d)
+        sv = np.linalg.svd(X - X.mean(0), compute_uv=False) ** 2
+        if sv.sum() > 0 and sv[r - 1] >= 1e-3 * sv.sum() and vol > 1e-3:
+            return np.ascontiguousarray(X), float(vol), "%d-points-in-%dD:rank%d:%s:%s" % (n, d, r, how, emb)
+    X = np.array([[0.0, 0.0, 0.0], [1.0, 2.0, 2.0], [0.5, 1.0, 1.0]])
+    return X, 3.0, "3-points-in-3D:rank1:simplex+edge-point:fallback"
+
+
 def chroma_rank(X):
     C = X / X.sum(1, keepdims=True)
     return int(np.linalg.matrix_rank(C - C[0], tol=1e-9))
@@ -59,6 +106,11 @@ def run(R):
               "whole-number captures handed in as integer arrays / lists / Fortran / strided views; estimator systems with fewer "
               "sources than receptors, with everywhere-positive, banded (compact overlapping support) and scattered-zero filters and "
               "broad or band-limited sources), "
+              "clouds with NO MORE POINTS THAN DIMENSIONS: 2..d points in 2-5 dimensions, affinely independent (a simplex within its "
+              "span) or dependent (repeated vertex, point on an edge, convex combination, planar polygon; collinear points) "
+              "embedded by a dyadic affine map / a rotation / into coordinate axes, handed in as array / Fortran / strided / list, "
+              "volume compared with the closed form, with s^rank x volume after scaling+rotation+shift and with the volume "
+              "after a point of the hull was added; gamut clouds with 2..n_receptors rows; "
               "rigid motions (Cayley rotations), positive scalings, added points, seeds; non-negative vector pairs incl. zeros and "
               "unequal totals for the divergence. Mean width is compared with the Float run of the model on the SAME direction "
               "sample (regenerated from the seed), and with the closed form perimeter/pi * Gamma(3/2)Gamma(d/2)/Gamma((d+1)/2) on planar polygons in d dimensions; volume with closed forms; gamut ratios with "
@@ -127,15 +179,22 @@ def run(R):
                 Rm = rot_cayley(rng, 3); X = np.c_[Q2, np.zeros(5)] @ Rm.T + 1.0; exact = float(a * b)
             else:
                 X = np.tile(dyadic(rng, -2, 2, 2, size=(1, max(d, 2))), (4, 1)); exact = 0.0
+            rv = R.rng(12, k)
             c.update(family=fam, X=X, exact=exact)
             R.count("volume:" + fam)
-            st, out = call(dreye.compute_volume, X.copy())
+            st, out = call(dreye.compute_volume, as_given(rv, X.copy(), R, "volume-X", kinds=("same", "fortran", "strided", "list")))
             jobs.append((c, st, out, dict(exact=exact, X=X)))
         elif what == "gamut":
             nf = int(rng.integers(2, 5)); npts = int(rng.integers(4, 12))
             X = dyadic(rng, 0.125, 4, 3, size=(npts, nf)); seed = int(rng.integers(1000))
             metric = str(rng.choice(["width", "volume"]))
             scales = dyadic(rng, 0.25, 8, 2, size=(npts, 1))
+            # few rows: a cloud may have no more rows than receptors (2..nf captures: the chromaticities are then no more points
+            # than dimensions of the chromaticity diagram, or just one more)
+            rf = R.rng(13, k)
+            if rf.integers(4) == 0:
+                npts = int(rf.integers(2, nf + 1)); X = X[:npts]; scales = scales[:npts]
+            R.count("gamut-rows:%s" % ("few(<=receptors)" if npts <= nf else "more-than-receptors"))
             rv = R.rng(6, k); gflat = None; sup = None
             if nf >= 3 and rv.integers(3) == 0:
                 # captures of fewer sources than receptors: the chromaticities lie in a flat of the simplex (on a face of it
@@ -337,6 +396,36 @@ def run(R):
             R.failB(dict(c, impl_error=w), "raised %s" % w, "C18:width_geometric:raises:" + st); continue
         if abs(float(w) - hull_per * factor) > 5 * hull_per / np.sqrt(nd):
             R.failB(dict(c, impl=float(w)), "mean width %r of a convex polygon in %d dimensions, closed form (perimeter/pi in the plane, perimeter/4 in space) = %r" % (float(w), de, hull_per * factor), "C18:width_geometric:cauchy")
+    # volume of clouds with no more points than dimensions (2..d points in 2-5 dimensions; affinely independent or dependent):
+    # closed form within the affine span; rigid motion / scaling / added points of the hull leave it / scale it / do not shrink it
+    for k in range(n + 200, n + 200 + (12 if R.tier == "quick" else 150)):
+        if not R.want(k):
+            continue
+        rv = R.rng(12, k)
+        X, exact, few = few_points_cloud(rv)
+        n_, d_ = X.shape; r_ = int(few.split(":")[1][4:])
+        sc_ = float(dyadic(rv, 0.25, 8, 2)); t_ = dyadic(rv, -8, 8, 2, size=d_); Rm = rot_cayley(rv, d_)
+        # one more point of the hull (a convex combination of the rows): the hull, hence its volume, is the same; the cloud may
+        # then have more points than dimensions
+        w_ = rv.multinomial(8, np.ones(n_) / n_) / 8.0
+        Xa = np.vstack([X, (w_ @ X)[None, :]])[rv.permutation(n_ + 1)]
+        c = dict(k=k, what="volume", family="few_points", X=X, exact=exact, few_points=few, scale=sc_, shift=t_, rotation=Rm, with_hull_point=Xa)
+        R.count("what:volume_few_points"); R.count("volume-few-points:%d-in-%dD" % (n_, d_))
+        R.count("volume-few-points:%s" % ("affinely-independent" if r_ == n_ - 1 else "affinely-dependent:rank%d" % r_))
+        R.count("volume-few-points:%s" % ":".join(few.split(":")[2:]))
+        Xg = as_given(rv, X.copy(), R, "volume-X", kinds=("same", "fortran", "strided", "list"))
+        st, out = call(lambda: (dreye.compute_volume(Xg), dreye.compute_volume((X * sc_) @ Rm.T + t_), dreye.compute_volume(Xa)))
+        R.case(c, (k,), sample=True)
+        sig = "C18:volume:few_points" + (":fewer-than-d-1-points" if n_ < d_ - 1 else "")
+        if st != "ok":
+            R.failB(dict(c, impl_error=out), "volume raised %s: %s" % (st, out), sig + ":raises:" + st); continue
+        v, vm, va = [float(x_) for x_ in out]
+        if abs(v - exact) > 1e-9 * (abs(exact) + 1.0):
+            R.failB(dict(c, impl=v), "volume %r of %d points in %d dimensions, the hull within its affine span (rank %d) has %r (%s)" % (v, n_, d_, r_, exact, few), sig + ":closed-form")
+        elif abs(vm - sc_ ** r_ * exact) > 1e-9 * (sc_ ** r_ * abs(exact) + 1.0):
+            R.failB(dict(c, impl=[v, vm]), "volume after scaling by %r, rotating and shifting is %r, expected %r^%d x %r" % (sc_, vm, sc_, r_, exact), sig + ":motion-scale")
+        elif va < v - 1e-9 * (abs(v) + 1.0) or abs(va - exact) > 1e-9 * (abs(exact) + 1.0):
+            R.failB(dict(c, impl=[v, va]), "volume changed from %r to %r when a point of the hull was added" % (v, va), sig + ":added-point")
     # estimator: fractional gamut in absolute capture lies in (0, 1]
     for k in range(n + 100, n + 100 + (6 if R.tier == "quick" else 60)):
         if not R.want(k):
